@@ -96,12 +96,20 @@ Lemma safe_complete t o x : complete t = true -> safe (mkFS t o x) = true.
 Proof. intros H. unfold safe. cbn [cur]. now rewrite H. Qed.
 
 (* backup_file(<name>) then rename(<name>.tmp, <name>), with a complete temporary file *)
-Lemma install_spec m : complete (tmp (m_fs m)) = true ->
-  forall m' r, install m = (m', r) ->
+Lemma install_spec w m : complete (tmp (m_fs m)) = true ->
+  forall m' r, install w m = (m', r) ->
   m_reg m' = m_reg m /\ keeps (m_fs m) (m_fs m') /\
   (r = Done true -> curok (m_fs m') = true /\ safe (m_fs m') = true).
 Proof.
-  intros Htmp m' r. unfold install, backup.
+  intros Htmp m' r. unfold install. destruct (w_backup w).
+  2:{ destruct (pop m SRenameT) as [o4 m4] eqn:E4. destruct (pop_spec _ _ _ _ E4) as (Hf4 & Hr4).
+      destruct o4 as [| |j4]; intros H; inversion H; subst; cbn [set_fs m_fs m_reg]; rewrite ?Hf4.
+      + split; [exact Hr4|]. split.
+        * split; intros; [now apply curok_complete | now apply safe_complete].
+        * intros _. split; [now apply curok_complete | now apply safe_complete].
+      + split; [exact Hr4|]. split; [apply keeps_same_co, same_co_refl | discriminate].
+      + split; [exact Hr4|]. split; [apply keeps_same_co, same_co_refl | discriminate]. }
+  unfold backup.
   destruct (pop m SAccess) as [o1 m1] eqn:E1. destruct (pop_spec _ _ _ _ E1) as (Hf1 & Hr1).
   destruct o1 as [| |j1].
   2:{ intros H; inversion H; subst. rewrite Hf1. split; [exact Hr1|]. split; [apply keeps_same_co, same_co_refl | discriminate]. }
@@ -137,19 +145,24 @@ Qed.
 Definition reg_idle (s : stream) : Prop := s = NotOpen \/ s = Open true.
 
 (* writing the temporary file, closing it, installing it *)
-Lemma body_spec m ch tail c o v :
+Lemma body_spec w m ch tail c o v :
   m_fs m = mkFS c o (Some (mkF v 0 (total_of ch tail))) ->
-  forall m' r, body m ch tail = (m', r) ->
+  forall m' r, body w m ch tail = (m', r) ->
   keeps (m_fs m) (m_fs m') /\ (r <> Dead -> reg_idle (m_reg m')) /\
   (r = Done true -> curok (m_fs m') = true /\ safe (m_fs m') = true).
 Proof.
   intros Hfs m' r. unfold body.
-  destruct (write_chunks m ch) as [m5 w] eqn:Ew.
+  destruct (write_chunks m ch) as [m5 w0] eqn:Ew.
   destruct (write_chunks_spec ch m _ _ _ _ _ Hfs _ _ Ew) as (Hr5 & b5 & Hfs5 & Hb5).
   assert (Hco5 : same_co (m_fs m) (m_fs m5)) by (rewrite Hfs, Hfs5; split; reflexivity).
-  destruct w as [[|]|].
-  - intros H; inversion H; subst. cbn [set_reg m_fs m_reg].
-    split; [now apply keeps_same_co|]. split; [intros _; now right | discriminate].
+  destruct w0 as [[|]|].
+  - destruct (w_sticky w).
+    + intros H; inversion H; subst. cbn [set_reg m_fs m_reg].
+      split; [now apply keeps_same_co|]. split; [intros _; now right | discriminate].
+    + destruct (pop m5 SClose) as [oc mc] eqn:Epc. destruct (pop_spec _ _ _ _ Epc) as (Hfc & Hrc).
+      assert (Hcoc : same_co (m_fs m) (m_fs mc)) by (rewrite Hfc; exact Hco5).
+      destruct oc as [| |jc]; intros H; inversion H; subst; cbn [set_reg m_fs m_reg];
+        (split; [now apply keeps_same_co|]; split; [intros Hx; try (now left); congruence | discriminate]).
   - destruct (close_stream m5 tail) as [m6 cr] eqn:Ec6.
     destruct (close_stream_spec _ _ _ _ _ _ _ Hfs5 _ _ Ec6) as (Hr6 & b6 & Hfs6 & Hb6).
     assert (Hco6 : same_co (m_fs m) (m_fs m6)) by (rewrite Hfs, Hfs6; split; reflexivity).
@@ -160,7 +173,7 @@ Proof.
       assert (Htmp : complete (tmp (m_fs m6)) = true).
       { rewrite Hfs6. cbn [tmp]. rewrite complete_some. apply N.eqb_eq.
         rewrite (Hb6 eq_refl), (Hb5 eq_refl), fold_total. lia. }
-      destruct (install_spec m6 Htmp _ _ H) as (Hreg & Hk & Hd).
+      destruct (install_spec w m6 Htmp _ _ H) as (Hreg & Hk & Hd).
       split.
       * destruct Hk as [Hk1 Hk2]. split.
         -- intros Hc. apply Hk1. now rewrite (same_co_curok _ _ Hco6).
@@ -170,8 +183,8 @@ Proof.
   - intros H; inversion H; subst. split; [now apply keeps_same_co|]. split; [congruence | discriminate].
 Qed.
 
-Lemma open_tmp_spec m v total : reg_idle (m_reg m) ->
-  forall m' b, open_tmp m v total = (m', b) ->
+Lemma open_tmp_spec w m v total : reg_idle (m_reg m) ->
+  forall m' b, open_tmp w m v total = (m', b) ->
   same_co (m_fs m) (m_fs m') /\
   (b = Some true -> reg_idle (m_reg m')) /\
   (b = Some false -> tmp (m_fs m') = Some (mkF v 0 total)).
@@ -191,26 +204,28 @@ Proof.
   destruct o3 as [| |j3]; intros H; inversion H; subst; cbn [set_reg set_fs m_fs m_reg].
   - split; [|split; [discriminate | intros _; reflexivity]].
     eapply same_co_trans; [exact Hco0|]. rewrite Hf3, Hf1. apply same_co_tmp.
-  - rewrite Hf3, Hf1. split; [exact Hco0|]. split; [intros _; now right | discriminate].
+  - destruct (w_sticky w); cbn [set_reg m_fs m_reg]; rewrite Hf3, Hf1; (split; [exact Hco0|]; split; [intros _ | discriminate]).
+    + now right.
+    + rewrite Hr3, Hr1. cbn. now rewrite Hr0.
   - rewrite Hf3, Hf1. split; [exact Hco0|]. split; discriminate.
 Qed.
 
 (* one save, from a state in which the stream is not registered (or registered and failed), under ANY
    behaviour of the environment (success, error return or death at every call) *)
-Lemma save_any m v ch tail : reg_idle (m_reg m) ->
-  forall m' r, save m v ch tail = (m', r) ->
+Lemma save_any w m v ch tail : reg_idle (m_reg m) ->
+  forall m' r, save_w w m v ch tail = (m', r) ->
   keeps (m_fs m) (m_fs m') /\ (r <> Dead -> reg_idle (m_reg m')) /\
   (r = Done true -> curok (m_fs m') = true /\ safe (m_fs m') = true).
 Proof.
-  intros Hreg m' r. unfold save. destruct Hreg as [Hr|Hr]; rewrite Hr.
-  - destruct (open_tmp m v (total_of ch tail)) as [m1 b] eqn:Eo.
-    destruct (open_tmp_spec m v _ (or_introl Hr) _ _ Eo) as (Hco & Hbt & Hbf).
+  intros Hreg m' r. unfold save_w. destruct Hreg as [Hr|Hr]; rewrite Hr.
+  - destruct (open_tmp w m v (total_of ch tail)) as [m1 b] eqn:Eo.
+    destruct (open_tmp_spec w m v _ (or_introl Hr) _ _ Eo) as (Hco & Hbt & Hbf).
     destruct b as [[|]|].
     + intros H; inversion H; subst. split; [now apply keeps_same_co|]. split; [intros _; now apply Hbt | discriminate].
     + intros H.
       assert (Hfs1 : m_fs m1 = mkFS (cur (m_fs m1)) (old (m_fs m1)) (Some (mkF v 0 (total_of ch tail)))).
       { rewrite <- (Hbf eq_refl). destruct (m_fs m1); reflexivity. }
-      destruct (body_spec m1 ch tail _ _ v Hfs1 _ _ H) as (Hk & Hri & Hd).
+      destruct (body_spec w m1 ch tail _ _ v Hfs1 _ _ H) as (Hk & Hri & Hd).
       split; [|split; [exact Hri | exact Hd]].
       destruct Hk as [Hk1 Hk2]. split.
       * intros Hc. apply Hk1. now rewrite (same_co_curok _ _ Hco).
@@ -224,16 +239,16 @@ Proof.
 Qed.
 
 (* one process: any number of saves, going on after errors, any environment *)
-Lemma session_any l : forall m, reg_idle (m_reg m) -> curok (m_fs m) = true ->
-  forall m' rs, session m l = (m', rs) ->
+Lemma session_any w l : forall m, reg_idle (m_reg m) -> curok (m_fs m) = true ->
+  forall m' rs, session_w w m l = (m', rs) ->
   curok (m_fs m') = true /\ (safe (m_fs m) = true \/ completed rs = true -> safe (m_fs m') = true).
 Proof.
   induction l as [|s l IH]; intros m Hreg Hcur m' rs H.
   - cbn in H. inversion H; subst. split; [exact Hcur|]. intros [Hs|Hc]; [exact Hs | discriminate].
-  - cbn [session] in H. destruct (save m (s_ver s) (s_chunks s) (s_tail s)) as [m1 res] eqn:Es.
-    destruct (save_any _ _ _ _ Hreg _ _ Es) as ((Hk1 & Hk2) & Hidle & Hdone).
+  - cbn [session_w] in H. destruct (save_w w m (s_ver s) (s_chunks s) (s_tail s)) as [m1 res] eqn:Es.
+    destruct (save_any _ _ _ _ _ Hreg _ _ Es) as ((Hk1 & Hk2) & Hidle & Hdone).
     destruct res as [ok|].
-    + destruct (session m1 l) as [m2 rs2] eqn:Ess. inversion H; subst.
+    + destruct (session_w w m1 l) as [m2 rs2] eqn:Ess. inversion H; subst.
       destruct (IH _ (Hidle ltac:(discriminate)) (Hk1 Hcur) _ _ Ess) as (Hc2 & Hs2).
       split; [exact Hc2|]. intros Hor. apply Hs2.
       destruct Hor as [Hs|Hc].
@@ -246,15 +261,15 @@ Proof.
 Qed.
 
 (* any number of process lifetimes on the same directory *)
-Lemma history_any h : forall fs, curok fs = true ->
-  forall fs' out, history fs h = (fs', out) ->
+Lemma history_any w h : forall fs, curok fs = true ->
+  forall fs' out, history_w w fs h = (fs', out) ->
   curok fs' = true /\ (safe fs = true \/ existsb (fun o => completed (fst o)) out = true -> safe fs' = true).
 Proof.
   induction h as [|[l plan] h IH]; intros fs Hcur fs' out H.
   - cbn in H. inversion H; subst. split; [exact Hcur|]. intros [Hs|Hc]; [exact Hs | discriminate].
-  - cbn [history] in H. destruct (session (start fs plan) l) as [m rs] eqn:Es.
-    destruct (history (m_fs m) h) as [fs2 out2] eqn:Eh. inversion H; subst.
-    destruct (session_any l (start fs plan) (or_introl eq_refl) Hcur _ _ Es) as (Hc1 & Hs1).
+  - cbn [history_w] in H. destruct (session_w w (start fs plan) l) as [m rs] eqn:Es.
+    destruct (history_w w (m_fs m) h) as [fs2 out2] eqn:Eh. inversion H; subst.
+    destruct (session_any w l (start fs plan) (or_introl eq_refl) Hcur _ _ Es) as (Hc1 & Hs1).
     destruct (IH _ Hc1 _ _ Eh) as (Hc2 & Hs2).
     split; [exact Hc2|]. intros Hor. apply Hs2.
     cbn [existsb fst] in Hor. destruct Hor as [Hs|Hc].
@@ -262,32 +277,41 @@ Proof.
     + apply orb_true_iff in Hc. destruct Hc as [Hc|Hc]; [left; apply Hs1; now right | now right].
 Qed.
 
+Lemma crash_consistent_w w fs h : curok fs = true ->
+  let '(fs', out) := history_w w fs h in
+  safe fs = true \/ existsb (fun o => completed (fst o)) out = true -> safe fs' = true.
+Proof.
+  intros Hc. destruct (history_w w fs h) as [fs' out] eqn:E. exact (proj2 (history_any w h fs Hc _ _ E)).
+Qed.
+
 Lemma crash_consistent fs h : curok fs = true ->
   let '(fs', out) := history fs h in
   safe fs = true \/ existsb (fun o => completed (fst o)) out = true -> safe fs' = true.
-Proof.
-  intros Hc. destruct (history fs h) as [fs' out] eqn:E. exact (proj2 (history_any h fs Hc _ _ E)).
-Qed.
+Proof. exact (crash_consistent_w W_restart fs h). Qed.
 
 (* the name of the state file never holds an incomplete file *)
-Lemma current_never_partial fs h : curok fs = true -> curok (fst (history fs h)) = true.
+Lemma current_never_partial_w w fs h : curok fs = true -> curok (fst (history_w w fs h)) = true.
 Proof.
-  intros Hc. destruct (history fs h) as [fs' out] eqn:E. exact (proj1 (history_any h fs Hc _ _ E)).
+  intros Hc. destruct (history_w w fs h) as [fs' out] eqn:E. exact (proj1 (history_any w h fs Hc _ _ E)).
 Qed.
+
+Lemma current_never_partial fs h : curok fs = true -> curok (fst (history fs h)) = true.
+Proof. exact (current_never_partial_w W_restart fs h). Qed.
 
 (* no error return is swallowed: a save that reports success has installed the complete new state *)
 Lemma save_ok_is_complete m v ch tail : reg_idle (m_reg m) ->
   forall m', save m v ch tail = (m', Done true) ->
   complete (cur (m_fs m')) = true /\ m_reg m' = NotOpen.
 Proof.
-  intros Hreg m' H. destruct (save_any _ _ _ _ Hreg _ _ H) as (_ & Hidle & Hd).
+  intros Hreg m' H. unfold save in H. destruct (save_any _ _ _ _ _ Hreg _ _ H) as (_ & Hidle & Hd).
   destruct (Hd eq_refl) as [Hc Hs].
   (* the current file exists after a successful install: follow the code *)
-  unfold save in H. destruct Hreg as [Hr|Hr]; rewrite Hr in H.
-  - destruct (open_tmp m v (total_of ch tail)) as [m1 b] eqn:Eo. destruct b as [[|]|]; try discriminate.
-    unfold body in H. destruct (write_chunks m1 ch) as [m5 w] eqn:Ew. destruct w as [[|]|]; try discriminate.
+  unfold save_w in H. destruct Hreg as [Hr|Hr]; rewrite Hr in H.
+  - destruct (open_tmp W_restart m v (total_of ch tail)) as [m1 b] eqn:Eo. destruct b as [[|]|]; try discriminate.
+    unfold body in H. cbn [W_restart w_sticky] in H.
+    destruct (write_chunks m1 ch) as [m5 w] eqn:Ew. destruct w as [[|]|]; try discriminate.
     destruct (close_stream m5 tail) as [m6 cr] eqn:Ec6. destruct cr as [[|]|]; try discriminate.
-    destruct (open_tmp_spec m v _ (or_introl Hr) _ _ Eo) as (_ & _ & Hbf).
+    destruct (open_tmp_spec W_restart m v _ (or_introl Hr) _ _ Eo) as (_ & _ & Hbf).
     assert (Hfs1 : m_fs m1 = mkFS (cur (m_fs m1)) (old (m_fs m1)) (Some (mkF v 0 (total_of ch tail)))).
     { rewrite <- (Hbf eq_refl). destruct (m_fs m1); reflexivity. }
     destruct (write_chunks_spec ch m1 _ _ _ _ _ Hfs1 _ _ Ew) as (Hr5 & b5 & Hfs5 & Hb5).
@@ -295,10 +319,10 @@ Proof.
     assert (Htmp : complete (tmp (m_fs m6)) = true).
     { rewrite Hfs6. cbn [tmp]. rewrite complete_some. apply N.eqb_eq.
       rewrite (Hb6 eq_refl), (Hb5 eq_refl), fold_total. lia. }
-    destruct (install_spec m6 Htmp _ _ H) as (Hreg6 & _ & _).
+    destruct (install_spec W_restart m6 Htmp _ _ H) as (Hreg6 & _ & _).
     split; [|rewrite Hreg6; apply Hr6; discriminate].
     (* cur of the result is the temporary file *)
-    unfold install in H. destruct (backup m6) as [m7 bk] eqn:Eb. destruct bk as [[|]|]; try discriminate.
+    unfold install in H. cbn [W_restart w_backup] in H. destruct (backup m6) as [m7 bk] eqn:Eb. destruct bk as [[|]|]; try discriminate.
     destruct (pop m7 SRenameT) as [o m8] eqn:E8. destruct o; try discriminate.
     inversion H; subst. cbn [set_fs m_fs cur].
     destruct (pop_spec _ _ _ _ E8) as (Hf8 & _). rewrite Hf8.
@@ -316,7 +340,7 @@ Qed.
 Lemma stuck_stream m v ch tail m' r : m_reg m = Open true -> save m v ch tail = (m', r) ->
   r <> Done true /\ same_co (m_fs m) (m_fs m').
 Proof.
-  intros Hr. unfold save. rewrite Hr.
+  intros Hr. unfold save, save_w. rewrite Hr.
   destruct (pop m SUnlink) as [o0 m0] eqn:E0. destruct (pop_spec _ _ _ _ E0) as (Hf0 & _).
   destruct o0; intros H; inversion H; subst; cbn [set_fs m_fs]; rewrite Hf0;
     (split; [discriminate | first [apply same_co_tmp | apply same_co_refl]]).
